@@ -555,7 +555,8 @@ def gen_c09_scans(ctx):
     st_ = attr_stores(repo, 'state')
     ok = {q for q, _ in st_} <= {'droop.candidate.Candidate.__init__', 'droop.candidate.Candidate.elect',
                                  'droop.candidate.Candidate.unelect', 'droop.candidate.Candidate.defeat'}
-    scan(ctx, P, 'droop/**/*.py', 'single-writer-state', 'Candidate.state is assigned only in __init__, elect, unelect, defeat', ok, detail=str(st_))
+    scan(ctx, P + ['C18'], 'droop/**/*.py', 'single-writer-state',
+         'Candidate.state is assigned only in __init__, elect, unelect, defeat (elect and defeat record the action that names the candidate)', ok, detail=str(st_))
     pe = attr_stores(repo, 'pending')
     ok = {q for q, _ in pe} <= {'droop.candidate.Candidate.__init__', 'droop.candidate.Candidate.elect', 'droop.candidate.Candidate.unpend'}
     scan(ctx, P, 'droop/**/*.py', 'single-writer-pending', 'Candidate.pending is assigned only in __init__, elect, unpend', ok, detail=str(pe))
@@ -1388,7 +1389,7 @@ GENERATORS = {
     'C17': [gen_c17_scans, gen_c20_scans],
     'C09': [gen_c09_scans, gen_select_conformance, gen_lean_card],
     'C01': [gen_select_conformance, gen_lean_card],
-    'C18': [gen_c18_scans],
+    'C18': [gen_c18_scans, gen_c09_scans],
     'C16': [gen_c16],
     'C15': [gen_c16],
     'C19': [gen_c19_scans],
